@@ -15,7 +15,7 @@ for pid in sorted(PROPS):
         "evidence_file": "/verif/evidence/%s.json" % pid,
         "replay_cmd_template": "./check %s --replay {path}" % pid,
         "engine": "rapid+enum",
-        "level_claimed": {"category": m.get("category", "exploration"), "text": m["text"], "design_ref": "DESIGN.md section 4, " + pid},
+        "level_claimed": {"category": PROPS[pid].get("level", m.get("category", "exploration")), "text": m["text"], "design_ref": "DESIGN.md section 4, " + pid},
         "level_note": m["note"],
         "technique": m["technique"],
     })
